@@ -527,6 +527,11 @@ func checkAtomicity(c *Ctx, rule string, e *locksetEngine) {
 				if k, op, ok := lockOp(i); ok && (op == "Lock" || op == "RLock") {
 					acqCount[k]++
 				}
+				if cl, ok := i.(*ssa.Call); ok {
+					if k, ok := selfLockingCall(cl); ok {
+						acqCount[k]++
+					}
+				}
 			}
 		}
 		multi := false
@@ -634,6 +639,30 @@ func acquisitionsAt(fn *ssa.Function) map[ssa.Instruction]acqState {
 	return at
 }
 
+// selfLockingCall: a static call of a method that takes (R)Lock of a lock field of its own receiver; the key is that
+// lock on the caller's receiver value.
+func selfLockingCall(cl *ssa.Call) (lockKey, bool) {
+	cal := cl.Call.StaticCallee()
+	if cal == nil || cal.Blocks == nil || cal.Signature.Recv() == nil || len(cal.Params) == 0 || len(cl.Call.Args) == 0 {
+		return lockKey{}, false
+	}
+	if cal.Signature.Results().Len() == 0 {
+		return lockKey{}, false
+	}
+	recv := canon(cal.Params[0])
+	for _, b := range cal.Blocks {
+		for _, i := range b.Instrs {
+			if _, isDefer := i.(*ssa.Defer); isDefer {
+				continue
+			}
+			if k, op, ok := lockOp(i); ok && (op == "Lock" || op == "RLock") && k.base == recv {
+				return lockKey{canon(cl.Call.Args[0]), k.lock}, true
+			}
+		}
+	}
+	return lockKey{}, false
+}
+
 func atomicityFindings(p *Program, fn *ssa.Function, guarded map[string]string) []atomFinding {
 	at := acquisitionsAt(fn)
 	isWriteAcq := func(a ssa.Instruction) bool {
@@ -646,6 +675,7 @@ func atomicityFindings(p *Program, fn *ssa.Function, guarded map[string]string) 
 	}
 	taint := map[ssa.Value]map[lockKey]acqSet{}
 	field := map[ssa.Value]string{}
+	fromCall := map[ssa.Value]bool{} // tainted (also) by a self-locking call: only the mixed-snapshot sink looks at these
 	add := func(v ssa.Value, k lockKey, as acqSet, f string) bool {
 		if taint[v] == nil {
 			taint[v] = map[lockKey]acqSet{}
@@ -684,6 +714,17 @@ func atomicityFindings(p *Program, fn *ssa.Function, guarded map[string]string) 
 							}
 							continue
 						}
+					}
+				}
+				// the result of a method of the same object that takes the lock itself: read in a section of its own (the call
+				// instruction stands for that acquisition)
+				if cl, ok := i.(*ssa.Call); ok {
+					if k, ok := selfLockingCall(cl); ok {
+						if add(v, k, acqSet{cl: true}, "the result of "+cl.Call.StaticCallee().Name()+"()") {
+							changed = true
+						}
+						fromCall[v] = true
+						continue
 					}
 				}
 				var ops []ssa.Value
@@ -738,6 +779,10 @@ func atomicityFindings(p *Program, fn *ssa.Function, guarded map[string]string) 
 							changed = true
 						}
 					}
+					if fromCall[o] && !fromCall[v] {
+						fromCall[v] = true
+						changed = true
+					}
 				}
 			}
 		}
@@ -781,7 +826,33 @@ func atomicityFindings(p *Program, fn *ssa.Function, guarded map[string]string) 
 					}
 				}
 			}
+			// mixed snapshot: a guarded table is indexed, in one section, with a value read in another
+			if lk, isLk := i.(*ssa.Lookup); isLk {
+				if ld, isLd := lk.X.(*ssa.UnOp); isLd && ld.Op == token.MUL {
+					if owner, name, base, ok := ownerField(ld.X); ok {
+						if lkn, g := guarded[owner+"."+name]; g {
+							k := lockKey{base, lkn}
+							cur := at[i][k]
+							if as := taint[lk.Index][k]; len(cur) > 0 && len(as) > 0 {
+								disjoint := true
+								for a := range cur {
+									if as[a] {
+										disjoint = false
+									}
+								}
+								if disjoint && !seen[i] {
+									seen[i] = true
+									out = append(out, atomFinding{"mixed:" + owner + "." + name, i, owner + "." + name + " is indexed with a value taken from " + field[lk.Index] + " in an earlier, separate critical section of " + k.lock + ": a refresh can replace both tables in between, so the answer pairs the old state of one with the new state of the other (a leader id from before the refresh looked up in the broker table from after it: a broker no response ever named as the leader) — readers must see the state before or after a refresh, never a mixture"})
+								}
+							}
+						}
+					}
+				}
+			}
 			for _, v := range used {
+				if fromCall[v] {
+					continue
+				}
 				for k, as := range taint[v] {
 					cur := at[i][k]
 					if len(cur) > 0 {
